@@ -40,7 +40,7 @@ def main():
                 'evidence_file': '/verif/evidence/%s.json' % pid,
                 'replay_cmd_template': 'bin/check %s --replay {path}' % pid,
                 'engine': 'tlc',
-                'level_claimed': {'category': b['category'], 'text': b['text'],
+                'level_claimed': {'category': b['category'], 'text': b['text'] + getattr(claims, 'ADDENDA', {}).get(pid, ''),
                                   'design_ref': b['ref']},
                 'level_note': b['note'],
                 'technique': b['technique'],
